@@ -112,6 +112,18 @@ func (p *Prog) splices(fn *ssa.Function) []*spliceSite {
 		if nIf == 0 {
 			continue // straight-line helper: handled by term inlining
 		}
+		// only helpers that decide, not helpers that act: a helper with a mutating effect stays
+		// opaque (its result matches no tabled atom, so whatever depends on it fails closed)
+		mutates := false
+		for _, e := range p.closure(h) {
+			switch e.Kind {
+			case "W", "D", "LEDGER", "EVENT", "FORBIDDEN", "UNRESOLVED":
+				mutates = true
+			}
+		}
+		if mutates {
+			continue
+		}
 		hx := p.tx(h)
 		p.info(h) // threading inside the helper
 		sp := &spliceSite{B: b, H: h, Call: call, ret: map[*ssa.BasicBlock][]int{}}
